@@ -14,7 +14,63 @@ def clean():
     rc, out = sh(["git", "-C", REPO, "status", "--porcelain", "--untracked-files=no"])
     return out.strip() == ""
 
+def worker(args):
+    """judge one patch in its own scratch worktree (VERIF_REPO / VERIF_OUT), several side by side"""
+    f, slot, tier, props = args
+    name = os.path.relpath(f, ROOT)
+    wt = "/tmp/mw/w%d" % slot
+    out = "/tmp/mw/o%d" % slot
+    if not os.path.isdir(wt):
+        os.makedirs("/tmp/mw", exist_ok=True)
+        sh(["git", "-C", REPO, "worktree", "add", "-q", "--detach", wt, "HEAD"])
+    sh(["git", "-C", wt, "checkout", "-q", "--detach", subprocess.run(["git", "-C", REPO, "rev-parse", "HEAD"], stdout=subprocess.PIPE, text=True).stdout.strip()])
+    sh(["git", "-C", wt, "checkout", "-q", "--", "."])
+    rc, o = sh(["git", "-C", wt, "apply", "--whitespace=nowarn", f])
+    if rc != 0:
+        return name, {"error": "does not apply: " + o[-300:]}
+    env = dict(os.environ, VERIF_REPO=wt, VERIF_OUT=out, RAYON_NUM_THREADS=os.environ.get("MUT_THREADS", "4"))
+    t0 = time.time()
+    p = subprocess.run("cargo test --workspace --no-fail-fast --offline 2>&1 | grep -E '^test result|error(\\[|:)' ", cwd=wt, shell=True, stdout=subprocess.PIPE, stderr=subprocess.STDOUT, text=True)
+    suite_ok = "FAILED" not in p.stdout and "error" not in p.stdout and "33 passed" in p.stdout
+    entry = {"suite_passes": suite_ok, "flagged": {}, "tier": tier, "scale": os.environ.get("VERIF_SCALE", "1")}
+    for pr in props:
+        q = subprocess.run([os.path.join(ROOT, "verif"), "check", pr, "--tier", tier], cwd=ROOT, env=env, stdout=subprocess.PIPE, stderr=subprocess.STDOUT, text=True)
+        if q.returncode == 1:
+            lines = [l for l in q.stdout.splitlines() if l.startswith("VIOLATION") or l.strip().startswith("class=")]
+            entry["flagged"][pr] = lines[:4]
+        elif q.returncode != 0:
+            entry["flagged"][pr] = ["HARNESS-ERROR rc=%d: %s" % (q.returncode, q.stdout[-400:])]
+    entry["wall_s"] = round(time.time() - t0, 1)
+    sh(["git", "-C", wt, "checkout", "-q", "--", "."])
+    return name, entry
+
+
+def parallel_main(files, jobs, tier, props, outp, results):
+    import concurrent.futures as cf
+    import queue
+    slots = queue.Queue()
+    for i in range(jobs):
+        slots.put(i)
+    def run(f):
+        slot = slots.get()
+        try:
+            return worker((f, slot, tier, props))
+        finally:
+            slots.put(slot)
+    with cf.ThreadPoolExecutor(jobs) as ex:
+        for name, entry in ex.map(run, files):
+            results[name] = entry
+            print(name, "suite_ok=%s" % entry.get("suite_passes"), "flagged:", sorted(entry.get("flagged", {}).keys()), entry.get("error", ""), flush=True)
+            json.dump(results, open(outp, "w"), indent=1)
+    for i in range(jobs):
+        sh(["git", "-C", REPO, "worktree", "remove", "--force", "/tmp/mw/w%d" % i])
+        sh("rm -rf /tmp/mw/o%d" % i)
+    sh(["git", "-C", REPO, "worktree", "prune"])
+    sh("rm -rf /tmp/verif-shadow-*")
+
+
 def main():
+    jobs = int(os.environ.get("MUT_JOBS", "0"))
     pats = sys.argv[1:] or [os.path.join(ROOT, "mutants", "*.patch")]
     files = []
     for p in pats:
@@ -23,6 +79,8 @@ def main():
     results = json.load(open(outp)) if os.path.exists(outp) else {}
     tier = os.environ.get("MUT_TIER", "quick")
     props = os.environ.get("MUT_PROPS", ",".join(PROPS)).split(",")
+    if jobs > 0:
+        return parallel_main(files, jobs, tier, props, outp, results)
     for f in files:
         name = os.path.relpath(f, ROOT)
         if not clean():
